@@ -81,16 +81,17 @@ type GenAcc struct {
 
 // Config is a genesis + node configuration. JSON-serialisable so replays are self-contained.
 type Config struct {
-	Vals        []GenVal   `json:"vals"`
-	Accs        []GenAcc   `json:"accs"`
-	DAOTokens   int64      `json:"dao_tokens"`
-	Owner       int        `json:"owner"`     // key index owning every ACL entry
-	DAOOwner    int        `json:"dao_owner"` // key index of the DAO owner
-	Pos         *PosParams `json:"pos,omitempty"`
-	FeeMult     *FeeMult   `json:"fee_mult,omitempty"`
-	Pruning     [2]int64   `json:"pruning"` // keepRecent, keepEvery; {0,1} = nothing
-	MountPerm   int        `json:"mount_perm,omitempty"`
-	MaxBlockGas int64      `json:"max_block_gas,omitempty"`
+	Vals        []GenVal       `json:"vals"`
+	Accs        []GenAcc       `json:"accs"`
+	DAOTokens   int64          `json:"dao_tokens"`
+	Owner       int            `json:"owner"`                // key index owning every ACL entry
+	ACLOwners   map[string]int `json:"acl_owners,omitempty"` // per-parameter owner overrides
+	DAOOwner    int            `json:"dao_owner"`            // key index of the DAO owner
+	Pos         *PosParams     `json:"pos,omitempty"`
+	FeeMult     *FeeMult       `json:"fee_mult,omitempty"`
+	Pruning     [2]int64       `json:"pruning"` // keepRecent, keepEvery; {0,1} = nothing
+	MountPerm   int            `json:"mount_perm,omitempty"`
+	MaxBlockGas int64          `json:"max_block_gas,omitempty"`
 }
 
 // PosParams are custom pos parameters (nil => module route with the forced defaults).
@@ -308,6 +309,11 @@ func GenesisState(cfg Config) map[string]json.RawMessage {
 	acl := govTypes.ACL(make([]govTypes.ACLPair, 0))
 	for _, k := range AllParamKeys {
 		acl.SetOwner(k, Addr(cfg.Owner))
+	}
+	for _, k := range AllParamKeys { // deterministic order
+		if o, ok := cfg.ACLOwners[k]; ok {
+			acl.SetOwner(k, Addr(o))
+		}
 	}
 	ggs := govTypes.GenesisState{
 		Params:    govTypes.Params{ACL: acl, DAOOwner: Addr(cfg.DAOOwner), Upgrade: govTypes.NewUpgrade(0, "")},
